@@ -47,12 +47,24 @@ Changes == { <<Def("g", Lam(<<"a">>, "", P("+", <<V("a"), I(100)>>)))>>,
              <<SetE("x", I(5))>>,
              <<Def("f", Lam(<<"a", "b">>, "", I(9)))>>,
              <<Emit1(I(0))>> }
+\* what the global g is bound to when f is compiled: a procedure written in the language, or a NATIVE
+\* procedure of the implementation under another name (the tiers may treat a call of such a global specially)
+GDefs == { Lam(<<"a">>, "", gb) : gb \in GBodies } \cup { V("-"), V("+"), V("list") }
 Calls == { << Pre,
-              <<Def("g", Lam(<<"a">>, "", gb)), Def("f", Lam(<<"a", "b">>, "", fb))>>,
+              <<Def("g", gd), Def("f", Lam(<<"a", "b">>, "", fb))>>,
               <<Emit1(App(V("f"), <<I(1), I(2)>>)), Emit1(LoopCall), Emit1(V("x"))>>,
               ch,
               <<Emit1(App(V("f"), <<I(2), I(3)>>)), Emit1(App(V("g"), <<I(2)>>)), Emit1(V("x"))>> >>
-           : gb \in GBodies, fb \in FBodies, ch \in Changes }
+           : gd \in GDefs, fb \in FBodies, ch \in Changes }
+         \cup
+         \* ... the same with g defined by an EARLIER unit than f
+         { << Pre, <<Def("g", gd)>>,
+              <<Def("f", Lam(<<"a", "b">>, "", fb))>>,
+              <<Emit1(App(V("f"), <<I(1), I(2)>>)), Emit1(LoopCall)>>,
+              ch,
+              <<Emit1(App(V("f"), <<I(2), I(3)>>)), Emit1(App(V("g"), <<I(2)>>))>> >>
+           : gd \in { V("-"), V("list"), Lam(<<"a">>, "", P("+", <<V("a"), I(1)>>)) }, fb \in FBodies,
+             ch \in { <<SetE("g", Lam(<<"a">>, "", I(7)))>>, <<SetE("g", V("+"))>>, <<Def("g", Lam(<<"a">>, "", I(7)))>> } }
 
 -----------------------------------------------------------------------------
 (* tail: (equal? (run 2) (run BigN)) where run returns the control depth at loop exit *)
